@@ -57,6 +57,12 @@ func Generate(root string, seed int64, n int) ([]Entry, error) {
 		}
 		list = append(list, Entry{Dir: dir, Mains: p.Mains, Name: name, Module: module})
 	}
+	// a hand-written package with one specimen of nearly every kind of syntax node, comment and directive
+	zoo := filepath.Join(root, "astzoo")
+	if err := copyDir(filepath.Join(jbuild.VerifDir(), "workloads", "curated", "astzoo"), zoo); err != nil {
+		return nil, err
+	}
+	list = append(list, Entry{Dir: zoo, Mains: []string{"."}, Name: "astzoo", Module: "astzoo"})
 	return list, nil
 }
 
